@@ -7,7 +7,8 @@ leaves the state reached after some prefix of the steps; a restart runs the oper
   makeBackup (data_helper.go)      Stat(folder) · MkdirAll(baseDir) · [listBackups: Stat …] ·
                                    RemoveAll(old.(n-1)) when the window is full ·
                                    Rename(old.(i-1), old.i) for i = n-1 … 1 · Rename(folder, old.0)
-  CleanupRaft (raft.go)            no snapshot: RemoveAll(dataFolder)   else makeBackup
+  CleanupRaft (raft.go)            latestSnapshot (NewFileSnapshotStore: MkdirAll <data>/snapshots — also when the
+                                   folder did not exist) · no snapshot: RemoveAll(dataFolder)   else makeBackup
   SnapshotSave (raft.go)           makeDataFolder (MkdirAll) · CleanupRaft when a snapshot exists ·
                                    NewFileSnapshotStore (MkdirAll <data>/snapshots) ·
                                    store.Create (MkdirAll <id>.tmp, meta.json, state.bin) · writes ·
@@ -64,7 +65,7 @@ def cleanSteps (keep : Nat) (d : Dirs α) : List (FsStep α) :=
   match d.data with
   | some (.snap _) => backupSteps keep d
   | some .nosnap => [.rmData]
-  | none => []
+  | none => [.mkData, .rmData]     -- `latestSnapshot` opens a snapshot store on the folder, which creates it
 
 /-- `SnapshotSave` -/
 def saveSteps (keep : Nat) (d : Dirs α) (s : α) : List (FsStep α) :=
